@@ -203,6 +203,7 @@ func deepCopyCfg(c config.ServerConfig) config.ServerConfig {
 var c16Edits = []string{"drop-prefix_deny", "drop-prefix_allow", "remove-user", "remove-first-user", "reorder-users", "remove-commands", "remove-services", "remove-groups",
 	"remove-authenticator", "remove-accounter", "shrink-options", "remove-secret", "reorder-secrets", "add-user", "change-rule", "same-again",
 	"move-deny-to-allow", "move-allow-to-deny", "swap-deny-allow", "shift-deny-allow-boundary", "add-deny",
+	"orphan-users", "unregistered-provider-type", "empty-prefixes", "shrink-prefixes", "unregistered-handler-type",
 	"invalid-syntax", "invalid-type", "no-users", "no-secrets", "empty-document"}
 
 func c16Edit(r *gen.R, prev config.ServerConfig, edit string) (cfg *config.ServerConfig, raw map[string][]byte) {
@@ -231,6 +232,27 @@ func c16Edit(r *gen.R, prev config.ServerConfig, edit string) (cfg *config.Serve
 		}
 	case "add-deny":
 		c.PrefixDeny = append(c.PrefixDeny, r.PickS("10.0.0.0/24", "10.1.0.0/24", "10.0.9.0/24", "10.2.0.0/16"))
+	case "orphan-users":
+		// passes the minimum-content check, but no user belongs to any configured scope
+		for i := range c.Users {
+			c.Users[i].Scopes = []string{"nowhere"}
+		}
+	case "unregistered-provider-type":
+		for i := range c.Secrets {
+			c.Secrets[i].Type = config.DNS
+		}
+	case "unregistered-handler-type":
+		for i := range c.Secrets {
+			c.Secrets[i].Handler.Type = config.SPAN
+		}
+	case "empty-prefixes":
+		for i := range c.Secrets {
+			c.Secrets[i].Options = map[string]string{"prefixes": "[]"}
+		}
+	case "shrink-prefixes":
+		for i := range c.Secrets {
+			c.Secrets[i].Options = map[string]string{"prefixes": fmt.Sprintf("[\"10.%d.0.0/24\"]", i)}
+		}
 	case "drop-prefix_deny":
 		c.PrefixDeny = nil
 	case "drop-prefix_allow":
@@ -424,6 +446,46 @@ func runC16(b *mon.B) {
 			}
 			if bad {
 				break
+			}
+		}
+		// ---- burst: a further load arrives while the previous one has not been consumed yet
+		if !bad && hi%4 == 0 {
+			var valid []c16Doc
+			for _, d := range docs {
+				if d.Cfg != nil && len(d.Cfg.Users) > 0 && len(d.Cfg.Secrets) > 0 {
+					valid = append(valid, d)
+				}
+			}
+			if len(valid) >= 2 {
+				a, z := valid[0], valid[len(valid)-1]
+				bl := newDocLoader(format)
+				if err := bl.Unmarshal(a.Raw[format]); err == nil {
+					done := make(chan error, 1)
+					go func() { done <- bl.Unmarshal(z.Raw[format]) }() // may block until the slot is free
+					time.Sleep(200 * time.Microsecond)
+					var got []config.ServerConfig
+					got = append(got, <-bl.Config())
+					var lerr error
+					select {
+					case lerr = <-done:
+					case <-time.After(10 * time.Second):
+						lerr = fmt.Errorf("second load still blocked after its predecessor was consumed")
+					}
+					select {
+					case v := <-bl.Config():
+						got = append(got, v)
+					case <-time.After(50 * time.Millisecond):
+					}
+					fresh := newDocLoader(format)
+					fresh.Unmarshal(z.Raw[format])
+					want := <-fresh.Config()
+					b.Count("burst_loads", 1)
+					if lerr == nil && (len(got) < 2 || canon(got[len(got)-1]) != canon(want)) {
+						b.Violate(caseNo, fmt.Sprintf("C16/%s/accepted-load-never-published", format),
+							fmt.Sprintf("%s loader: a load that arrived while its predecessor was still waiting to be consumed returned success, but its configuration was never published (%d configurations came out, the last is not the newest document)", format, len(got)),
+							map[string]interface{}{"format": format, "published": len(got)})
+					}
+				}
 			}
 		}
 		b.Class("%s/%s/%s", format, strings.Join(tail, ">"), outcome)
